@@ -19,6 +19,7 @@ open Ivg Ivg.Num Ivg.Gen Ivg.Gen.Code
 
 /-! ## helpers -/
 
+tolerant
 theorem encAux_len4 (f : F32) : (Enc.encode4ByteReal f).length = 4 := rfl
 
 /-- resolve the `if`s of a goal whose conditions are decided by the given hypotheses, and compute list lengths -/
@@ -27,26 +28,36 @@ macro "enc_ifs" "[" hs:Lean.Parser.Tactic.simpLemma,* "]" : tactic =>
       not_true_eq_false, not_false_eq_true, List.length_cons, List.length_nil, encAux_len4, Nat.zero_add,
       Nat.reduceAdd, Int.cast_ofNat_Int, Bool.false_eq_true, Bool.not_eq_true, Bool.not_false, Bool.not_true])
 
+tolerant
 /-- the float32 constants of the Go source, as the translator prints them (bit patterns) -/
 theorem encAux_f32_15120 : F32.ofInt 15120 = ⟨0x466c4000⟩ := by decide
+tolerant
 theorem encAux_f32_64 : F32.ofInt 64 = ⟨0x42800000⟩ := by decide
+tolerant
 theorem encAux_f32_128 : F32.ofInt 128 = ⟨0x43000000⟩ := by decide
+tolerant
 theorem encAux_f32_neg128 : F32.ofInt (-128) = ⟨0xc3000000⟩ := by decide
+tolerant
 theorem encAux_f64_64 : F64.ofInt 64 = ⟨0x4050000000000000⟩ := by decide
 
+tolerant
 theorem encAux_mod126 (t : UInt32) : (t % (126 : UInt32) = (0 : UInt32)) ↔ t.toNat % 126 = 0 := by
   rw [← UInt32.toNat_inj, UInt32.toNat_mod]; rfl
 
+tolerant
 theorem encAux_div126_shl1 (t : UInt32) :
     ((t / (126 : UInt32)) <<< (1 : UInt32)).toNat % 256 = (t.toNat / 126 * 2) % 256 := by
   rw [encAux_shl1_mod, UInt32.toNat_div]; rfl
 
+tolerant
 /-- Go's `int32` comparisons on `int32(f)` are the integer comparisons on the model's `f.toInt32 : Int` -/
 theorem encAux_i32_le (a : Int32) (f : F32) : (a ≤ Go.cvt_f32_i32 f) ↔ a.toInt ≤ f.toInt32 := by
   rw [Int32.le_iff_toInt_le, encAux_toInt_cvt]
+tolerant
 theorem encAux_i32_lt (a : Int32) (f : F32) : (Go.cvt_f32_i32 f < a) ↔ f.toInt32 < a.toInt := by
   rw [Int32.lt_iff_toInt_lt, encAux_toInt_cvt]
 
+tolerant
 /-- `uint8(uint32(i+64) << 1)` for `-64 ≤ i < 64` -/
 theorem encAux_coord1 (f : F32) (h0 : -64 ≤ f.toInt32) (h1 : f.toInt32 < 64) :
     ((Go.cvt_i32_u32 (Go.cvt_f32_i32 f + (64 : Int32))) <<< (1 : UInt32)).toNat % 256
@@ -55,6 +66,7 @@ theorem encAux_coord1 (f : F32) (h0 : -64 ≤ f.toInt32) (h1 : f.toInt32 < 64) :
   have := encAux_i32_add_toNat f.toInt32 64 (by omega) (by omega)
   rw [show Go.cvt_f32_i32 f + (64 : Int32) = Int32.ofInt f.toInt32 + Int32.ofInt 64 from rfl, this]
 
+tolerant
 /-- `uint32(i+8192) << 2 | 1` for `-8192 ≤ i < 8192` -/
 theorem encAux_coord2 (f : F32) (h0 : -8192 ≤ f.toInt32) (h1 : f.toInt32 < 8192) :
     ((Go.cvt_i32_u32 (Go.cvt_f32_i32 f + (8192 : Int32))) <<< (2 : UInt32) ||| (1 : UInt32)).toNat
@@ -65,6 +77,7 @@ theorem encAux_coord2 (f : F32) (h0 : -8192 ≤ f.toInt32) (h1 : f.toInt32 < 819
 
 /-! ## the ties -/
 
+tolerant
 /-- `(*buffer).encodeNatural` (encode/buffer.go) appends the model's `Enc.encodeNatural` of the `uint32` argument
     (read as a natural number), for EVERY `uint32`: also beyond `2^30`, where both wrap modulo `2^32`. -/
 theorem encodeNatural_code_tie (b : Bytes) (u : UInt32) :
@@ -77,6 +90,7 @@ theorem encodeNatural_code_tie (b : Bytes) (u : UInt32) :
     · rw [encAux_bytes2 _ _ (encAux_shl2_or1 u (by omega))]
     · rw [encAux_bytes4 _ _ (encAux_shl2_or3 u)]
 
+tolerant
 /-- `(*buffer).encode4ByteReal` (encode/buffer.go) appends the model's `Enc.encode4ByteReal`. -/
 theorem encode4ByteReal_code_tie (b : Bytes) (f : F32) :
     encode_buffer_encode4ByteReal b f = b ++ Enc.encode4ByteReal f := by
@@ -92,6 +106,7 @@ theorem encode4ByteReal_code_tie (b : Bytes) (f : F32) :
     rw [encAux_bytes4 _ _ (encAux_real4_word f.bits _ (by rw [h2]; omega)), h2]
   · rw [encAux_bytes4 _ _ (encAux_real4_word f.bits _ (by rw [hlo]; exact hlt)), hlo]
 
+tolerant
 /-- `(*buffer).encodeReal` (encode/buffer.go) appends the model's `Enc.encodeReal` and returns its length. -/
 theorem encodeReal_code_tie (b : Bytes) (f : F32) :
     encode_buffer_encodeReal b f = (((Enc.encodeReal f).length : Int), b ++ Enc.encodeReal f) := by
@@ -107,6 +122,7 @@ theorem encodeReal_code_tie (b : Bytes) (f : F32) :
     · enc_ifs [h1, h2]
   · enc_ifs [h1]
 
+tolerant
 /-- `(*buffer).encodeCoordinate` (encode/buffer.go) appends the model's `Enc.encodeCoordinate` and returns its
     length.  (Go's `int32` tests and `uint32(i+64)` conversions against the model's unbounded-`Int` ones.) -/
 theorem encodeCoordinate_code_tie (b : Bytes) (f : F32) :
@@ -127,6 +143,7 @@ theorem encodeCoordinate_code_tie (b : Bytes) (f : F32) :
       rw [encAux_bytes2 _ _ (encAux_coord2 g d1 d2)]
     all_goals enc_ifs [h1, h2, h3, d1, d2, d3]
 
+tolerant
 /-- `(*buffer).encodeZeroToOne` (encode/buffer.go) appends the model's `Enc.encodeZeroToOne` and returns its
     length. -/
 theorem encodeZeroToOne_code_tie (b : Bytes) (f : F32) :
@@ -146,11 +163,13 @@ theorem encodeZeroToOne_code_tie (b : Bytes) (f : F32) :
     · enc_ifs [h1, h2]
   · enc_ifs [h1]
 
+tolerant
 /-- `(*buffer).encodeAngle` (encode/buffer.go) appends the model's `Enc.encodeAngle` and returns its length. -/
 theorem encodeAngle_code_tie (b : Bytes) (f : F32) :
     encode_buffer_encodeAngle b f = (((Enc.encodeAngle f).length : Int), b ++ Enc.encodeAngle f) := by
   simp only [encode_buffer_encodeAngle, Enc.encodeAngle, Go.cvt_f32_f64, Go.cvt_f64_f32, encodeZeroToOne_code_tie]
 
+tolerant
 /-- `(*Encoder).quantize` (encode/encode.go), which reads the receiver field `highResolutionCoordinates`, is the
     model's `Enc.quantize` (the float64 form `floor(float64(coord)*64 + 0.5)`). -/
 theorem quantize_code_tie (hi : Bool) (c : F32) : encode_Encoder_quantize hi c = Enc.quantize hi c := by
